@@ -161,3 +161,30 @@ def expected_ctag(S):
 
 def opname(op):
     return ["put", "delete", "read"][op]
+
+
+# ---------------------------------------------------------------------------------------------------
+# The step harnesses once more over a MENU of body tokens: the solver chooses the pre-state (two tokens) and the
+# target; the written body and the kind of earlier history are looped over inside, untraced.  Exhaustive over the
+# menu, so a defect that needs one particular combination (e.g. "a member without UID is rewritten with one") is
+# found whatever order the symbolic search of the sibling harness happens to take.
+MENU_TOK = [b"", b"xa", b"ya", b"xb", b"Na", b"x-", b"!a"]   # absent / uid a (two contents) / uid b / normalised / no uid / invalid
+
+
+def menu_steps(body_fn, i0, i1, target, with_hist=True):
+    from xv.core import picks, untraced
+    n = 2
+    c0, c1, target = picks((i0, i1, target), (MENU_TOK[:6], MENU_TOK[:6], n + 4))
+    with untraced():
+        last = (True, "pre-invalid")
+        for body in MENU_TOK[1:]:
+            for hist in ((0, 1, 2) if with_hist else (None,)):
+                args = (c0, c1, b"", target, body) + ((hist,) if with_hist else ())
+                r = body_fn(*args)
+                if not r[0]:
+                    from xv import ctx
+                    ctx.LAST_EXC = "state (%r, %r) target %d body %r hist %r: %s" % (c0, c1, target, body, hist, r[1])
+                    return r
+                if r[1] != "pre-invalid":
+                    last = r
+        return (True, "menu:" + last[1].split(":")[0])
